@@ -260,9 +260,22 @@ class Session:
         return f"{name}:\nnop\n"
 
 
+def learn_functions(world, model):
+    """Map the UUIDs of functions created by register_insert_function to
+    the model's function ids (by the name symbol)."""
+    fn = world.module.aux_data.get("functionNames")
+    if fn is None:
+        return
+    for fu, sym in fn.data.items():
+        if fu not in world.func_ids and ("I:" + sym.name) in model.funcs:
+            world.func_ids[fu] = "I:" + sym.name
+            world.func_uuid["I:" + sym.name] = fu
+
+
 def real_view(world, model):
     """Spans and label attachments of the real module, in model terms."""
     m = world.module
+    learn_functions(world, model)
     by_block, entries = function_maps(m)
     spans = {}
     for sect in m.sections:
@@ -399,6 +412,7 @@ def run_session(world, model, sdesc, armed, index, logger=None, gen_cb=None, che
     ops = sdesc["ops"]
     order = sdesc.get("reg_order") or list(range(len(ops)))
     sess.resolved = {}
+    sess.insfn = []
     sess.expanded = {}
     sess.patches = {}
     sess.reg_id = {}
@@ -425,6 +439,11 @@ def run_session(world, model, sdesc, armed, index, logger=None, gen_cb=None, che
                 ctx.delete_at(blk, 0, blk.size, retarget_to_proxy=bool(op.get("proxy")))
             sess.reg_id[oi] = reg_counter
             reg_counter += 1
+        elif k == "insfn":
+            p = sess.patches[oi] = SimPatch(sess, oi, op["patch"])
+            sym = ctx.register_insert_function(op["name"], p)
+            world.syms[op["name"]] = sym
+            sess.insfn.append(oi)
         elif k == "delfn":
             fu = world.func_uuid.get(op["func"])
             fobj = next((f for f in functions if f.uuid == fu), None)
@@ -470,6 +489,29 @@ def apply_to_model(sess):
             mods.append(((model.section_order.index(sp.sect), _unit_rank(model, sp), sp.start), off, sess.reg_id[oi] + n, oi, key, length))
     mods.sort()
     md = world.isa.cs()
+    # inserted functions come first, each in a new unit at the end of .text
+    for oi in sess.insfn:
+        op = ops[oi]
+        lst = caps.get(oi) or []
+        if not lst:
+            raise core.Desync(f"function patch of op {oi} was never invoked")
+        c = lst.pop(0)
+        fid = "I:" + op["name"]
+        model.funcs[fid] = {"name": op["name"]}
+        if c["cap"] is None:
+            # get_asm returned nothing: the stub (a single nop that returns)
+            toks = [Tok("insn", model.fresh_id(f"s{sess.index}o{oi}stub"), b=world.isa.nop, ikind="ret", origin=("stub", oi))]
+        else:
+            cap = c["cap"]
+            toks = tokens_from_section(world.isa, cap["sections"][cap["text"]], f"s{sess.index}o{oi}i{c['inv']}", md)
+            for name, sec in cap["sections"].items():
+                if name != cap["text"] and sec["data"]:
+                    model.add_unit(name, tokens_from_section(world.isa, sec, f"s{sess.index}o{oi}x{name}", md))
+        for t in toks:
+            if t.kind == "insn":
+                t.func = fid
+        head = [Tok("label", "L:" + op["name"], name=op["name"], origin=("insfn", oi)), Tok("entry", ("entry", "new", oi), func=fid)]
+        model.add_unit(".text", head + toks)
     for _, off, rid, oi, key, length in mods:
         op = ops[oi]
         k = op["k"]
